@@ -189,6 +189,15 @@ func TestRandomEntities(t *testing.T) {
 			for i := rapid.IntRange(0, 8).Draw(rt, "nent"); i > 0; i-- {
 				s = append(s, genEntity(rt))
 			}
+			if gen.Chance(rt, 40, "ambiguouspairs") {
+				// uids that coincide when type and id are joined without quoting (the map is encoded in a fixed order)
+				pairs := [][2]ir.Value{{ir.Ent("A::B", "c"), ir.Ent("A", "B::c")}, {ir.Ent("Org::Team", "x"), ir.Ent("Org", "Team::x")}, {ir.Ent("AB", "C"), ir.Ent("A", "BC")},
+					{ir.Ent("A", "b\"c"), ir.Ent("A", "b\\\"c")}, {ir.Ent("A::B::C", ""), ir.Ent("A::B", "C::")}, {ir.Ent("T", "a"), ir.Ent("T", "A")}}
+				for k := rapid.IntRange(1, 3).Draw(rt, "npairs"); k > 0; k-- {
+					p := gen.Pick(rt, pairs, "pair")
+					s = append(s, ir.Entity{UID: p[0], Parents: []ir.Value{p[1]}}, ir.Entity{UID: p[1]})
+				}
+			}
 			labels := []string{"store"}
 			seen := ir.Set()
 			for _, e := range s {
